@@ -581,7 +581,15 @@ class Exec(Interp):
                     fields_all.add(nm)
                 else:
                     self.st.heap[nm] = z3.Store(h, oid, self.fresh(f"hh_{nm}"))
-                    self.st.has[nm] = z3.Store(a, oid, self.fresh_bool(f"ha_{nm}"))
+                    # an attribute can only come into existence through a store (deletion is a separate cell)
+                    self.st.has[nm] = z3.Store(a, oid, z3.Or(z3.Select(a, oid), self.fresh_bool(f"ha_{nm}")))
+            elif cell[0] == "heapdel":
+                _, nm, oid = cell
+                h, a = self.st.field(nm)
+                if oid is None:
+                    fields_all.add(nm)
+                else:
+                    self.st.has[nm] = z3.Store(a, oid, self.fresh_bool(f"hd_{nm}"))
             elif cell[0] == "clock":
                 n2 = self.fresh_real("now")
                 self.assume(n2 >= self.st.now)
